@@ -7,7 +7,7 @@ CHECKS = {}  # filled below: id -> (technique, level text, level_note, design_re
 def add(pid, technique, text, note):
     CHECKS[pid] = (technique, text, note)
 
-add("C01", "reference-model monitor at the API boundary: get_info vs independent exhaustive/memoised best response over generated, structured and exhaustively enumerated games",
+add("C01", "reference-model monitor at the API boundary: get_info vs independent exhaustive/memoised best response over generated, structured and exhaustively enumerated games, plus a history monitor (get_info/clone/truncate/get_info on one value, judged against the profile it holds now)",
     "Held on every (game, profile) execution observed: hundreds of thousands of generated games per run plus every valid micro tree up to a bound, each judged by an oracle that shares no code with cfr. Exploration, not proof: it says nothing about tree shapes the generators cannot produce.",
     "Trusts the harness evaluator O1 (cross-checked against brute-force enumeration on each small game) and the stated input bounds.")
 add("C02", "reference-model monitor: returned total regret bound of solve(Full, vanilla) vs true regret from the independent best-response oracle O1, over games x budgets x thresholds x thread counts",
@@ -19,13 +19,13 @@ add("C03", "envelope monitor on measured true regret and returned bounds of solv
 add("C04", "envelope monitor with replication: true regret (O1) of Sampled/External outputs vs D*N*sqrt(A)/sqrt(T), exceedance must replicate on 11 of 21 fresh seeded sampling histories; aggregate medians over the run",
     "Held on the observed sampling histories: no (game, configuration) exceeded the convergence envelope reproducibly, and the median regret across games fell far below the T=100 level at T=3000. Statistical statement with replication; one known finding (a chance infoset repeated on one path) is reported as KNOWN-FINDING.",
     "Trusts O1 and hook H2 (seeded sampling feeds the production sampler from a deterministic RNG); the probabilistic statement is read as 'replicates on a majority of 21 fresh seeds'.")
-add("C05", "totality monitor around every solve call in supervised worker processes: panic/abort/deadlock(no-CPU-progress)/error-kind detection and well-formedness of the dense result (hook H1), over the full configuration grid incl. degenerate games and contended infosets",
+add("C05", "totality monitor around every solve call in supervised worker processes: panic/abort/deadlock(no-CPU-progress)/livelock(CPU-time)/error-kind detection and well-formedness of the dense result (hook H1), over the full configuration grid incl. degenerate games and contended infosets; fault injection (thread creation made to fail via RLIMIT_AS in fresh processes); thorough tier adds schedule exploration under Miri (deadlock/data-race/panic oracle)",
     "Held on every observed call: no panic, abort or deadlock witness; only the two documented error kinds and never with one thread; every returned probability vector was a distribution and every bound finite and non-negative (infinite only with zero iterations).",
     "Dense vectors are read through hook H1 (public readers hide NaN/negative entries); deadlock is restated as bounded progress (no CPU consumed for 25 s inside a solve).")
-add("C06", "differential k-thread vs 1-thread runs of solve(Full) under jitter hooks (H5), oversubscription and repetition + offline O3 step checker with exactly-once visit monitor on every k-thread event log",
+add("C06", "differential k-thread vs 1-thread runs of solve(Full) under jitter hooks (H5, incl. jitter while an infoset lock is held), oversubscription, contention workloads and repetition + offline O3 step checker with exactly-once visit monitor on every k-thread event log; deadlock witness by no-CPU-progress; thorough tier adds schedule exploration under Miri with the same monitors",
     "Held on every observed k-thread run and schedule: output equal to the 1-thread run within rounding (margin/conditioning rule for regret-matching discontinuities) and every logged transition was the documented one with each decision node processed exactly once per pass. Schedules explored are those the pool produced; their number is measured and reported.",
     "Trusts hooks H3-H5 (snapshots at quiescent points, jitter only between critical sections) and the O3 specification.")
-add("C07", "differential k-thread vs 1-thread runs of solve(Sampled|External) under pinned sampling decisions (hook H2 seeded/forced) and jitter + O3 step checker with exactly-once visit and one-draw-per-infoset-per-pass monitors",
+add("C07", "differential k-thread vs 1-thread runs of solve(Sampled|External) under pinned sampling decisions (hook H2 seeded/forced), jitter and contention workloads + O3 step checker with exactly-once visit and one-draw-per-infoset-per-pass monitors; thorough tier adds schedule exploration under Miri",
     "Held on every observed k-thread run: identical sampled tree, outputs equal within rounding to the 1-thread run, no worker panicked on a contended infoset, every decision node on the sampled tree processed exactly once.",
     "Trusts hook H2 (seeded/forced sampling is a pure function of site, infoset and pass) and H3-H5.")
 add("C08", "offline trace-specification checker (O3 step checker) over per-iteration state snapshots, draws and visits logged by hooks H1-H4, for all methods, parameter tuples incl. 0 and +-inf, presets vs documented tuples",
@@ -34,7 +34,7 @@ add("C08", "offline trace-specification checker (O3 step checker) over per-itera
 add("C09", "differential monitor: thresholded run must be bit-identical (1 thread) to the budget-t* run of the same code, thresholds placed at/next-above/next-below each observed bound; pass count from hook H3 as second witness",
     "Held on every observed (game, method, params, budget, threshold): the solve stopped exactly at the first iteration whose max bound was strictly below the threshold (or at the budget), incl. NaN/negative/infinite thresholds and the unbounded-budget idiom.",
     "Sampled methods use hook H2 seeded sampling so that the budget-t runs share sampling decisions; k>1 compared within rounding with a don't-care band at the threshold.")
-add("C10", "event-log checker over hook H2/H3/H4 logs + direct queries of the production multinomial sampler with chosen variates: interval membership, one draw per (infoset, pass), presented weights = declared/current distribution, Hoeffding/Azuma frequency bounds",
+add("C10", "event-log checker over hook H2/H3/H4 logs + direct queries of the production samplers (categorical sampler with chosen variates: interval membership; cached chance sampler: 2e5-2e6 fresh seeded draws): one draw per (infoset, pass), presented weights = declared/current distribution, no zero-probability outcome drawn, Hoeffding/Azuma frequency bounds, serial and cross-infoset independence",
     "Held on every observed draw and pass: the sampler returned the outcome whose cumulative interval contains the variate, every infoset was drawn at most once per pass and redrawn in the next, all nodes of a chance infoset followed the shared outcome, presented weights matched declared chance weights / the opponent's current strategy, and empirical frequencies stayed inside 1e-12-tail concentration bounds.",
     "Trusts hooks H2-H4; statistical bounds have per-test false-alarm probability 1e-12.")
 add("C11", "reference-model monitor: from_root verdict vs independent rule-set validator O2 over valid generated trees, every documented rule violated once (G4 mutations), and bounded-exhaustive micro trees; accepted trees cross-checked by O1/solve",
